@@ -24,11 +24,18 @@ type stream struct {
 	stalled  bool   // fault: nothing is delivered on this stream any more
 	Log      []byte // everything ever written (oracles read this)
 	Writes   [][]byte
+	// yield: a Write returns only when the scheduler resumes the writer, so that what the peer does
+	// with the bytes can be scheduled before the writer's next instruction (a real Write returns while
+	// the peer may already be reacting)
+	yield    bool
+	parked   int
+	releases int
+	wcond    *sync.Cond
 }
 
 func newStream(name string) *stream {
 	mu := &sync.Mutex{}
-	return &stream{name: name, mu: mu, cond: sync.NewCond(mu)}
+	return &stream{name: name, mu: mu, cond: sync.NewCond(mu), wcond: sync.NewCond(mu)}
 }
 
 // SimConn is one end of a simulated connection; it implements net.Conn.
@@ -79,13 +86,48 @@ func (c *SimConn) Write(p []byte) (int, error) {
 	s.inflight = append(s.inflight, p...)
 	s.Log = append(s.Log, p...)
 	s.Writes = append(s.Writes, append([]byte(nil), p...))
+	if s.yield {
+		s.parked++
+		for s.releases == 0 && s.yield {
+			s.wcond.Wait()
+		}
+		if s.releases > 0 {
+			s.releases--
+		}
+		s.parked--
+	}
 	return len(p), nil
+}
+
+// parkedWriters tells how many writers wait to be resumed after their Write.
+func (s *stream) parkedWriters() int {
+	s.mu.Lock()
+	defer s.mu.Unlock()
+	return s.parked - s.releases
+}
+
+// resumeWriter lets one parked writer return from its Write.
+func (s *stream) resumeWriter() {
+	s.mu.Lock()
+	s.releases++
+	s.wcond.Broadcast()
+	s.mu.Unlock()
+}
+
+// stopYield resumes every parked writer and turns write yields off (end of a session).
+func (s *stream) stopYield() {
+	s.mu.Lock()
+	s.yield = false
+	s.wcond.Broadcast()
+	s.mu.Unlock()
 }
 
 // Close closes both directions of this end.
 func (c *SimConn) Close() error {
 	c.wr.mu.Lock()
 	c.wr.wclosed = true
+	c.wr.yield = false
+	c.wr.wcond.Broadcast()
 	c.wr.cond.Broadcast()
 	c.wr.mu.Unlock()
 	c.rd.mu.Lock()
